@@ -294,6 +294,20 @@ LF_HIDDEN, LF_FUNC, LF_OB, LF_PROC, LF_CALCEXP, LF_BUILTIN = 1, 2, 4, 8, 16, 32
 LF_PUBLISHED, LF_WBPARAM = 0x2000, 0x4000
 
 
+# built-in defined names, MS-XLS 2.5.114 (id -> name); xlsx / xlsb store them as "_xlnm." + name
+XLS_BUILTIN = ["Consolidate_Area", "Auto_Open", "Auto_Close", "Extract", "Database", "Criteria", "Print_Area",
+               "Print_Titles", "Recorder", "Data_Form", "Auto_Activate", "Auto_Deactivate", "Sheet_Title",
+               "_FilterDatabase"]
+
+
+def lbl_logical(flags, name):
+    """the name a Lbl record defines: with fBuiltin the stored string is the one-character id of a
+    built-in name; an unknown id or any other string is the name as stored"""
+    if flags & LF_BUILTIN and len(name) == 1 and ord(name) < len(XLS_BUILTIN):
+        return "_xlnm." + XLS_BUILTIN[ord(name)]
+    return name
+
+
 def lbl_payload(flags, itab, name, wide16, rgce, chkey=0):
     """name: str (for a built-in name: the one-character code); wide16: store 16-bit characters"""
     if wide16:
@@ -314,6 +328,31 @@ def shrfmla_record_payload(r0, r1, c0, c1, rgce):
     """SHRFMLA 0x04BC: RefU (rwFirst u16, rwLast u16, colFirst u8, colLast u8), reserved u8,
     cUse u8, SharedParsedFormula (cce u16 + rgce)"""
     return struct.pack("<HHBBBB", r0, r1, c0, c1, 0, r1 - r0 + 1) + struct.pack("<H", len(rgce)) + rgce
+
+
+def array_record_payload(r0, r1, c0, c1, rgce, flags=0):
+    """ARRAY 0x0221: Ref (rwFirst u16, rwLast u16, colFirst u8, colLast u8), flags u16 (fAlwaysCalc),
+    unused u32, ArrayParsedFormula (cce u16 + rgce)"""
+    return struct.pack("<HHBBHI", r0, r1, c0, c1, flags, 0) + struct.pack("<H", len(rgce)) + rgce
+
+
+def xls_formula_payload(r, c, cpf, ixfe=0, value=0.0, grbit=0):
+    """body of a FORMULA record (0x0006): cell, ixfe, cached number, grbit, chn, CellParsedFormula"""
+    return struct.pack("<HHH", r, c, ixfe) + struct.pack("<d", value) + struct.pack("<HI", grbit, 0) + cpf
+
+
+def ptgexp_cpf(r, c):
+    """CellParsedFormula of a cell of a shared / array formula: PtgExp(row, col) of the first cell"""
+    return struct.pack("<H", 5) + b"\x01" + struct.pack("<HH", r, c)
+
+
+def shared_ref_text(p, corner):
+    """independent reading of MS-XLS PtgRefN / RgceLocRel for a cell p = (row, col) using a shared formula:
+    corner = (row_rel, d_or_row, col_rel, d_or_col) with SIGNED offsets; rows wrap around 65536, columns 256"""
+    rr, r, cr, c = corner
+    row = (p[0] + r) % 65536 if rr else r
+    col = (p[1] + c) % 256 if cr else c
+    return ("" if cr else "$") + col_letters(col) + ("" if rr else "$") + str(row + 1)
 
 
 # ----------------------------------------------------------------------------- XLSX
